@@ -24,7 +24,7 @@ from .irmodel import Rho
 class SymShape:
     _n = [0]
 
-    def __init__(self, interp, tag, rank=None, forward=False):
+    def __init__(self, interp, tag, rank=None, forward=False, data=False):
         import onnx_ir as ir
         SymShape._n[0] += 1
         u = f"{tag}!{SymShape._n[0]}"
@@ -39,6 +39,9 @@ class SymShape:
         self.name = z3.Function("name_" + u, z3.IntSort(), z3.StringSort())
         self.rt = z3.Function("rt_" + u, z3.IntSort(), z3.IntSort())
         self._seen = set()
+        # data=True: the entries of a 1-D INT64 tensor known through a Shape sym value (Inv_sym): a static entry is any integer,
+        # a symbolic or unknown entry is a dimension, hence >= 0
+        self.data = data
         sh = SObj(ir.Shape, "shape_" + tag)
         n = self.rank
         # forward=True: the functions are indexed by the position from the LEFT (used for lists a loop builds by append)
@@ -54,7 +57,8 @@ class SymShape:
         self._seen.add(k)
         ctx = self.ctx
         kd = self.kind(p)
-        ctx.assume(z3.And(kd >= 0, kd <= 2, self.rt(p) >= 0, self.ival(p) >= 0))
+        ctx.assume(z3.And(kd >= 0, kd <= 2))
+        ctx.assume(z3.Implies(kd != 0, self.rt(p) >= 0) if self.data else z3.And(self.rt(p) >= 0, self.ival(p) >= 0))
         ctx.assume(z3.Implies(kd == 0, self.rt(p) == self.ival(p)))
         ctx.assume(z3.Implies(kd == 1, self.rt(p) == Rho(self.name(p))))
 
